@@ -6,7 +6,7 @@ from hv.worlds import profile
 hprop.install(globals(), hprop.HistoryProperty(
     prop="C10",
     monitors=lambda: [C10Membership()],
-    profile=profile(nv=(2, 7), n_requests=(5, 30), fleets=[0, 2, 2, 3], socs=[0.02, 0.1, 0.15, 0.3, 0.8, 0.97], builtin=[True, True, False]),
+    profile=profile(nv=(2, 7), n_requests=(5, 30), fleets=[0, 1, 2, 2, 3], socs=[0.02, 0.1, 0.15, 0.3, 0.8, 0.97], builtin=[True, True, False]),
     nontrivial=lambda f: {"cross_fleet_instruction_rejected", "builtin_pairing"} <= f,
     rule=("stateful histories over generated worlds with 2-3 fleets and every vehicle, station, base independently in zero, one or several of "
           "them (plus the loader's private home-base memberships), requests carrying one fleet; adversarial controllers target other "
